@@ -175,16 +175,30 @@ def SpecGridClass():
             n = self.shape[axis]
             return clamp(vite(i < 0, i + n + 1, i), 0, n)
 
+        def _decide(self, key, make_cond):
+            """truth of a condition on the current path, decided once per grid instance (a grid lives
+            for one path; a decision, once taken on a path, stays)"""
+            memo = self.__dict__.setdefault("_memo", {})
+            k = (key[0],) + tuple(x.re.get_id() if hasattr(x, "re") and hasattr(x.re, "get_id") else x for x in key[1:])
+            if k not in memo:
+                memo[k] = bool(make_cond())
+            return memo[k]
+
         def _np_index(self, axis, *idx):
             """numpy indexing: negative indices count from the end, out of range raises IndexError
             (one joint decision for all indices of a call keeps the number of paths down)"""
             n = self.shape[axis]
-            if vor(*[vor(i < -(n + 1), i > n) for i in idx]):
+            if self._decide(("np_oob", axis, *idx), lambda: vor(*[vor(i < -(n + 1), i > n) for i in idx])):
                 raise IndexError(f"index out of bounds for axis 0 with size {n + 1}: {idx}")
-            return tuple(vite(i < 0, i + n + 1, i) for i in idx)
+            if self._decide(("np_neg", axis, *idx), lambda: vor(*[i < 0 for i in idx])):
+                return tuple(vite(i < 0, i + n + 1, i) for i in idx)
+            return idx
 
         def axis_extent(self, axis, bounds):
             lower, upper = bounds
+            n = self.shape[axis]
+            if self._decide(("jnp_in", axis, lower, upper), lambda: vand(0 <= lower, lower <= n, 0 <= upper, upper <= n)):  # the regular case, kept free of if-then-else terms
+                return (upper - lower) * self.__dict__["_h"]
             return self.edge(axis, self._jnp_index(axis, upper)) - self.edge(axis, self._jnp_index(axis, lower))
 
         def coord_to_index(self, axis, coord, snap="nearest"):
